@@ -163,7 +163,8 @@ CHECKS = {
         text="Coq theorems for EVERY rich content (any list lengths, integers, indices): if the trigger section is emitted "
              "at all it is a whole number of 2400-byte triggers with 16 conditions, 64 actions, 27 player flags (else the "
              "call raised); the rich encoders always lay out 255 / 64 / 64 / 512 slots; a value of a layout's shape encodes "
-             "to exactly the layout's size and a strict array of another length raises; WHOLE MAP: every table section "
+             "to exactly the layout's size and (in the MODEL; the decoded-level Python encoders check no list length, recorded finding "
+             "decoded-section-lists-unchecked) a strict array of another length raises; WHOLE MAP: every table section "
              "RichChkIo.encode_chk emits (re-encoded, recomputed UPUS, appended SWNM/UPRP/UPUS) has its mandated size for any "
              "rich content in rich form, and whatever decode_chk returns is in rich form; a string table holding anything "
              "but NUL-free 7-bit text is never written; every string number written into the location, switch-name and sound tables "
@@ -309,7 +310,7 @@ def main():
         }],
         "checks": checks,
         "not_applicable": [{"property_id": p, "reason": NOT_YET} for p in ALL if p not in CHECKS],
-        "notes": "25 fix: commits in /repo (7837be1 ... 2fd7a0c) and 18 recorded findings: see KNOWN_FINDINGS.txt and DESIGN.md section 10.4 / 10.7. Seeded breaking changes (114 in six rounds) and what catches them: /verif/seeded and DESIGN.md section 10.6.",
+        "notes": "25 fix: commits in /repo (7837be1 ... 2fd7a0c) and 19 recorded findings: see KNOWN_FINDINGS.txt and DESIGN.md section 10.4 / 10.7. Seeded breaking changes (114 in six rounds) and what catches them: /verif/seeded and DESIGN.md section 10.6.",
     }
     Path("/verif/MANIFEST.json").write_text(json.dumps(m, indent=1) + "\n")
 
